@@ -2,9 +2,14 @@
 (M) MC_Chain: composition model (fold order, faults at the transport, injections interleaved at every hop).
 (G) Gen_Chain: TLC enumerates chains (ordered selections of the 16 non-buffering member kinds) and traffic programs
     with fault positions; each is executed on the real Registry/Chain with recording endpoints.
-(T) Trace_Chain validates every recorded trace."""
+(T) Trace_Chain validates every recorded trace.
+(T, repotests) the executions of the repository's OWN test suite (every interceptor behind internal/test.MockStream) are recorded
+    through the MockStream hooks and validated by Trace_Mock.tla (checks/c01_repotests.py): a failed transparency clause is a C01
+    violation, failed clauses of other properties (C03-C08, C11, C14, C15, C17, C18) are NOTE lines."""
+import json
 import random
 
+import c01_repotests
 import vlib
 
 META = {
@@ -14,7 +19,9 @@ META = {
             "up to two of the 16 real non-buffering interceptors, every 2-3 step traffic program with faults on every order of "
             "a rich chain, and seeded random longer chains/programs; each program runs on the real Registry.Build chain and "
             "the recorded trace (what reached the transport per call, return values, read results, injected feedback, "
-            "Unbind/Close counts, Close errors) is validated by TLC.",
+            "Unbind/Close counts, Close errors) is validated by TLC. In addition the repository's own test suite is run once with a "
+            "recorder on internal/test.MockStream and every execution of an interceptor in it is validated by TLC against the "
+            "transparency clauses (Trace_Mock.tla, re-using Trace_Chain's operators).",
     "note": "Trusted: harness endpoints and packet classification (application packets are recognised by header identity, "
             "injected ones by arriving outside the call). Non-buffering members only (jitterbuffer, pacing, cc with the leaky "
             "bucket pacer excluded as the property says). Option settings are a table of settings that construct. "
@@ -69,7 +76,7 @@ def build_script(rng, chain, prog):
     sent = {1: [], 3: []}
     for a in prog:
         ident += 1
-        ln, shape = rng.choice([0, 1, 7, 40, 200, 1200, 1460]), rng.choice([0, 0, 1, 2, 3, 5, 6, 7])
+        ln, shape = rng.choice([0, 1, 7, 40, 200, 1200, 1460]), rng.choice([0, 0, 1, 2, 3, 5, 6, 7, 8, 9])
         ls, rs = rng.choice(locs), rng.choice(rems)
         if a in ("wok", "wfail"):
             wseq[ls] += 1
@@ -128,7 +135,7 @@ def negotiation_script(rng, chain):
             ident[0] += 1
             wseq[s] += 1
             steps.append({"a": "wrtp", "s": s, "w": wseq[s] % 65536, "id": ident[0], "len": rng.choice([0, 1, 40, 1200]),
-                          "shape": rng.choice([0, 0, 1, 2, 3, 5, 6, 7]), "fail": False})
+                          "shape": rng.choice([0, 0, 1, 2, 3, 5, 6, 7, 8, 9]), "fail": False})
 
     def nack(s):
         ident[0] += 1
@@ -219,6 +226,8 @@ def run(ctx):
     tbl = [None] + [{1: t[1], 2: t[2], 3: t[3], 4: t[9]} for t in vlib.SSRC_TABLES if t]
     scripts = [vlib.remap_ids(sc, rng.choice(tbl), keys=("s",)) for sc in scripts]
     run_batch(ctx, scripts, "T-random")
+    # (T) the executions of the repository's own tests (MockStream hooks + Trace_Mock.tla)
+    c01_repotests.run_stage(ctx)
     ctx.assumptions += [
         "application packets are recognised at the transport by header identity (all non-buffering members forward the caller's header object)",
         "feedback members run with 1-2 ms real tickers; the feedback checks are monotone (they hold for any tick timing)",
@@ -227,5 +236,9 @@ def run(ctx):
 
 
 def replay(ctx, path):
-    run_batch(ctx, vlib.replay_scripts(path), "replay")
+    rep = json.load(open(path))
+    if rep.get("kind") == "repotests":
+        c01_repotests.replay(ctx, rep)
+    else:
+        run_batch(ctx, vlib.replay_scripts(path), "replay")
     return vlib.finish(ctx, "model_checking", RULE)
